@@ -14,24 +14,33 @@ Theorem script_code_ok : forall (H160 : bytes -> bytes) k keys m,
   wf_keys keys m -> lib_script_code H160 k keys m = Some (spec_script_code H160 k keys m).
 Proof. exact script_code_ok. Qed.
 
-(* Transaction.raw(sign_id, hash_type, 'legacy') is Core's legacy SignatureHash serialization for every hash type
-   that is treated like SIGHASH_ALL, provided Input.index_n is the list position *)
+(* Transaction.raw(sign_id, hash_type, 'legacy') (repaired, fixes/C01-2) is Core's legacy SignatureHash serialization
+   for every hash type that is treated like SIGHASH_ALL; nothing is assumed about Input.index_n *)
 Theorem legacy_preimage_ok : forall (H160 : bytes -> bytes), (forall b, length (H160 b) = 20%nat) ->
   forall t i ht x,
-  wf_stx t -> index_ok t -> nth_error (st_ins t) i = Some x -> si_kind x <> K_p2sh_p2wsh ->
+  wf_stx t -> nth_error (st_ins t) i = Some x -> si_kind x <> K_p2sh_p2wsh ->
   legacy_all_like ht = true -> 0 <= ht < 2 ^ 32 ->
   lib_legacy_preimage H160 t (Z.of_nat i) ht = spec_legacy_preimage H160 t i ht.
 Proof. exact legacy_preimage_ok. Qed.
 
 Theorem legacy_preimage_ok_ALL : forall (H160 : bytes -> bytes), (forall b, length (H160 b) = 20%nat) ->
   forall t i x,
-  wf_stx t -> index_ok t -> nth_error (st_ins t) i = Some x -> k_segwit (si_kind x) = false ->
+  wf_stx t -> nth_error (st_ins t) i = Some x -> k_segwit (si_kind x) = false ->
   lib_legacy_preimage H160 t (Z.of_nat i) 1 = spec_legacy_preimage H160 t i 1.
 Proof.
-  intros H160 Hl t i x Hw Hi Hx Hk.
-  apply (legacy_preimage_ok H160 Hl t i 1 x Hw Hi Hx); [intros E; rewrite E in Hk; discriminate Hk|reflexivity|].
+  intros H160 Hl t i x Hw Hx Hk.
+  apply (legacy_preimage_ok H160 Hl t i 1 x Hw Hx); [intros E; rewrite E in Hk; discriminate Hk|reflexivity|].
   split; [discriminate|reflexivity].
 Qed.
+
+(* the code as it was before fixes/C01-2 (input found by its index_n attribute): the same statement needs the
+   hypothesis index_n = list position; see index_not_position_refuted below *)
+Theorem legacy_preimage_unrepaired_ok : forall (H160 : bytes -> bytes), (forall b, length (H160 b) = 20%nat) ->
+  forall t i ht x,
+  wf_stx t -> index_ok t -> nth_error (st_ins t) i = Some x -> si_kind x <> K_p2sh_p2wsh ->
+  legacy_all_like ht = true -> 0 <= ht < 2 ^ 32 ->
+  lib_legacy_preimage_at H160 false t (Z.of_nat i) ht = spec_legacy_preimage H160 t i ht.
+Proof. exact legacy_preimage_unrepaired_ok. Qed.
 
 (* Transaction.signature_segwit (repaired) is the BIP143 preimage for EVERY hash type: ALL, NONE, SINGLE, the three
    ANYONECANPAY combinations, SINGLE without a matching output, and every other 32-bit value *)
@@ -54,7 +63,7 @@ Qed.
    preimage for legacy inputs, H of the BIP143 preimage for native and P2SH-nested segwit inputs *)
 Theorem digest_ok : forall (H H160 : bytes -> bytes), (forall b, length (H160 b) = 20%nat) ->
   forall t i ht x,
-  wf_stx t -> index_ok t -> nth_error (st_ins t) i = Some x ->
+  wf_stx t -> nth_error (st_ins t) i = Some x ->
   (k_segwit (si_kind x) = true -> st_segwit t = true) ->
   hash_type_supported x ht ->
   lib_digest H H160 t i ht = spec_digest H H160 t i ht /\ spec_digest H H160 t i ht <> None.
@@ -62,15 +71,15 @@ Proof. exact digest_ok. Qed.
 
 (* the same with the executable SHA256d / HASH160: no premise on the hashes is left *)
 Theorem digest_ok_sha256 : forall t i ht x,
-  wf_stx t -> index_ok t -> nth_error (st_ins t) i = Some x ->
+  wf_stx t -> nth_error (st_ins t) i = Some x ->
   (k_segwit (si_kind x) = true -> st_segwit t = true) ->
   hash_type_supported x ht ->
   lib_digest sha256d hash160 t i ht = spec_digest sha256d hash160 t i ht.
-Proof. intros t i ht x Hw Hi Hx Hs Hh. apply (digest_ok sha256d hash160 hash160_length t i ht x Hw Hi Hx Hs Hh). Qed.
+Proof. intros t i ht x Hw Hx Hs Hh. apply (digest_ok sha256d hash160 hash160_length t i ht x Hw Hx Hs Hh). Qed.
 
-(* Transaction.verify asks for sign_id = inp.index_n: the digest sign() used, when index_n is the position *)
-Theorem verify_digest_is_sign_digest : forall (H H160 : bytes -> bytes) t i ht,
-  index_ok t -> lib_verify_digest H H160 t i ht = lib_digest H H160 t i ht.
+(* Transaction.verify hashes what Transaction.sign hashed (for the code before fixes/C01-2: when index_n = position) *)
+Theorem verify_digest_is_sign_digest : forall (H H160 : bytes -> bytes) bypos t i ht,
+  (bypos = false -> index_ok t) -> lib_verify_digest_at H H160 bypos t i ht = lib_digest_at H H160 bypos t i ht.
 Proof. exact verify_digest_is_sign_digest. Qed.
 
 (* BIP143 preimages are injective in what they commit to (no assumption on H beyond its output length);
@@ -121,17 +130,7 @@ Proof. exact legacy_commits. Qed.
 (* ---------- non-vacuity: the hypotheses are inhabited by a two-input mixed transaction ---------- *)
 
 Example ex_tx_wf : wf_stx ex_tx /\ index_ok ex_tx.
-Proof.
-  split.
-  - unfold wf_stx, ex_tx. cbn [st_version st_locktime st_ins st_outs].
-    repeat split; try (vm_compute; congruence).
-    + repeat constructor; try (vm_compute; congruence); try (left; reflexivity).
-    + repeat constructor; try (vm_compute; congruence).
-  - intros j x. destruct j as [|[|j]]; cbn.
-    + intros E. inversion E. reflexivity.
-    + intros E. inversion E. reflexivity.
-    + destruct j; discriminate.
-Qed.
+Proof. exact ex_tx_wf_proof. Qed.
 
 Example ex_tx_digests :
   opt_eqb (lib_digest sha256d hash160 ex_tx 0 131) (spec_digest sha256d hash160 ex_tx 0 131) = true /\
@@ -155,12 +154,17 @@ Example legacy_non_all_refuted :
   lib_legacy_preimage hash160 ex_tx 1 129 <> spec_legacy_preimage hash160 ex_tx 1 129.
 Proof. repeat split; apply opt_eqb_false; vm_compute; reflexivity. Qed.
 
-(* index_n different from the list position: sign() (position 1) and verify() (index_n) use different digests and
-   the signed one is not the consensus digest *)
+(* finding C01-2 (repaired): with the input found by its index_n attribute, a transaction whose index_n values
+   differ from the positions is signed over a digest that is not the consensus digest, and verify() asks for yet
+   another one; the repaired code gives the consensus digest whatever index_n holds *)
 Example index_not_position_refuted :
-  lib_digest sha256d hash160 ex_tx_perm 1 1 <> spec_digest sha256d hash160 ex_tx_perm 1 1 /\
-  lib_verify_digest sha256d hash160 ex_tx_perm 1 1 <> lib_digest sha256d hash160 ex_tx_perm 1 1.
-Proof. split; apply opt_eqb_false; vm_compute; reflexivity. Qed.
+  lib_digest_at sha256d hash160 false ex_tx_perm 1 1 <> spec_digest sha256d hash160 ex_tx_perm 1 1 /\
+  lib_verify_digest_at sha256d hash160 false ex_tx_perm 1 1 <> lib_digest_at sha256d hash160 false ex_tx_perm 1 1 /\
+  lib_digest sha256d hash160 ex_tx_perm 1 1 = spec_digest sha256d hash160 ex_tx_perm 1 1.
+Proof.
+  split; [apply opt_eqb_false; vm_compute; reflexivity|].
+  split; [apply opt_eqb_false; vm_compute; reflexivity|apply opt_eqb_true; vm_compute; reflexivity].
+Qed.
 
 (* amount 0 is refused by the library although consensus defines the digest *)
 Example zero_value_refused :
@@ -180,6 +184,7 @@ Proof. apply opt_eqb_false; vm_compute; reflexivity. Qed.
 Print Assumptions script_code_ok.
 Print Assumptions legacy_preimage_ok.
 Print Assumptions legacy_preimage_ok_ALL.
+Print Assumptions legacy_preimage_unrepaired_ok.
 Print Assumptions bip143_preimage_ok.
 Print Assumptions bip143_preimage_ok_ALL.
 Print Assumptions digest_ok.
